@@ -88,6 +88,8 @@ def cases(draw):
         if sk == "list" and not gshape:
             sk = "array"
         seed = {"kind": sk, "v": vals, "shape": gshape, "dtype": dt}
+        if len(gshape) >= 2 and sk in ("array", "tensor") and draw(st.integers(0, 2)) == 0:
+            seed["order"] = "F"  # caller-owned Fortran-ordered seed
     return {"prog": b.prog, "L": L, "seed": seed, "valid": valid, "seed_kind": kind, "dtypes": list(dts)}
 
 
@@ -122,6 +124,8 @@ def check_case(case, rec=None):
         bcast = seed is not None and seed["kind"] != "scalar" and list(seed["shape"]) != list(t.shape)
         nontrivial = (t.ndim > 0 and (nonuniform or bcast)) or lowest > 1e-15 or not case["valid"]
         labels = ["seed_" + case["seed_kind"], f"L_ndim={t.ndim}", "lowest_eps=%.0e" % lowest]
+        if seed is not None and seed.get("order") == "F":
+            labels.append("seed_F_ordered")
         rec.note([_skeleton(prog), L, case["seed_kind"], seed and seed.get("shape"), case["dtypes"]], nontrivial, labels,
                  sample={"L": L, "seed": seed, "stmts": prog["stmts"]})
 
